@@ -49,6 +49,10 @@ T = {
     text="Generated formulas of every theory with hostile symbol names, extreme constants, nested array values, finite and Int/Real binders, UF, plain and parametric uninterpreted sorts are printed by to_smtlib / SmtPrinter / SmtDagPrinter / smtlibscript_from_formula().serialize and by multi-assert SmtLibScripts (one printer instance for several formulas), in tree and let-DAG form. An independent strict SMT-LIB 2.6 reader (no pysmt import) must accept the text (lexicon, syntax, declared-before-use and once, sorts) and its elaboration must have the reference value of the original formula under all (<=64) or 8 sampled interpretations.",
     note="Trusted: vf/smtref.py (independent reader) and vf/refsem.py. Int/Real binders are compared under a finite binder window on both sides (sound for two renderings of one formula). Names containing | or backslash are outside the domain.",
     technique="differential property-based testing of the printers against an independent SMT-LIB reader + reference evaluator"),
+ "C08": dict(level="exploration", design="4/C08",
+    text="SMT-LIB scripts written by my own writer from generated blueprints with syntactic variation (literal notations, quoted symbols, nested/parallel/swap lets, binders and define-fun parameters shadowing globals, definitions and lets applied under binders of the same name, declare-const, chainable / n-ary / distinct / xor forms, numerals typed by the logic, comments) are read by pySMT (fresh parser, and one parser object re-used over several scripts) and by an independent strict reader: every assert, define-fun body, get-value term and declaration pySMT returns must have the standard meaning under the reference evaluator, or pySMT must raise; malformed variants of classes with an unambiguous expectation must be rejected; a committed corpus of 106 construct snippets must stay accepted with the standard meaning.",
+    note="Trusted: vf/smtref.py as the standard reading, vf/refsem.py. Any parser exception is a rejection. Int/Real binders are compared under a finite binder window on both readings. Three open findings (capture by binders x2, undeclared symbol read as String) are excluded by their construct tag.",
+    technique="differential property-based testing of the parser against an independent SMT-LIB elaborator; grammar-based generation with construct tags; regression corpus"),
 }
 
 checks, na = [], []
